@@ -102,7 +102,14 @@ where
 
     fn open_file(&self, path: &str) -> VfsResult<Box<dyn SeekAndRead + Send>> {
         // (the root is the empty string, which has no leading slash to strip)
-        match T::get(normalize_path(path)?) {
+        let normalized_path = normalize_path(path)?;
+        // Only names from the embedded file list exist: `T::get` is more liberal (it also takes
+        // `\` for a separator), which made a file readable under a name that neither `exists`
+        // nor `metadata` nor any listing knows.
+        if !self.files.contains_key(normalized_path) {
+            return Err(VfsErrorKind::FileNotFound.into());
+        }
+        match T::get(normalized_path) {
             None => Err(VfsErrorKind::FileNotFound.into()),
             Some(file) => Ok(Box::new(Cursor::new(file.data))),
         }
